@@ -355,9 +355,10 @@ def run_check(prop, tier, seed, t0):
         "correspondence_disagreements": len(diffs),
         "theorem_guards": {"scenarios_with_guard_line": sum(1 for r in good for l in r.get("out", []) if l.startswith("G ")),
                            "all_guards_hold": sum(1 for r in good for l in r.get("out", []) if l.startswith("G 1 1 1 1 1 1 1 1")),
-                           "deterministic_instances": sum(1 for r in good for l in r.get("out", []) if l.startswith("G ") and l.endswith(" 1") and len(l.split()) == 10),
+                           "deterministic_instances": sum(1 for r in good for l in r.get("out", []) if l.startswith("G ") and len(l.split()) == 11 and l.split()[9] == "1"),
+                           "instances_without_outages": sum(1 for r in good for l in r.get("out", []) if l.startswith("G ") and l.split()[-1] == "1"),
                            "structural_guards_hold": sum(1 for r in good for l in r.get("out", []) if l.startswith("G 1 1 1 1")),
-                           "meaning": "G <wfB> <shapeB> <conservedB> <capB> <restB> <placedB> <nonnegB> <samples>=0> <detInstB>: the first eight are the decidable hypotheses of the structural and schedule theorems (Start), evaluated on the real compiled instance and on the model; scenarios where a guard is 0 (e.g. a non-rest initial state written in the DSL) lie outside the theorems and are covered by the correspondence + monitors only; detInstB (no stochastic element) is the hypothesis of the seed-independence theorems of C13"},
+                           "meaning": "G <wfB> <shapeB> <conservedB> <capB> <restB> <placedB> <nonnegB> <samples>=0> <detInstB> <noOutagesB>: the first eight are the decidable hypotheses of the structural and schedule theorems (Start), evaluated on the real compiled instance and on the model; scenarios where a guard is 0 (e.g. a non-rest initial state written in the DSL) lie outside the theorems and are covered by the correspondence + monitors only; detInstB (no stochastic element) is the hypothesis of the seed-independence theorems of C13, noOutagesB that of C12's translation invariance"},
         "families": fams, "transitions_by_handler": stats, "error_classes_seen": errs,
         "env_steps": sum(r.get("steps", 0) for r in good),
         "monitor_findings_known": len(old), "monitor_findings_new": len(new),
